@@ -331,6 +331,65 @@ def client_reconnect_during_disconnect_probe(ack_delay):
     return simnet.run(go)
 
 
+def pause_inside_write_probe(what):
+    """The device has stopped reading; the write of a request (a request/response call, or the DisconnectRequest of disconnect())
+    takes the transport's buffer over its high-water mark, so asyncio calls pause_writing() from inside transport.write().
+    Whatever the library does about it: if the connection is closed afterwards, no task stays blocked on it and no timer stays
+    armed; if it is still open, the call completes when the device answers. Returns (closed after the write, list of what is wrong)."""
+    import asyncio
+    from vlib import simnet
+
+    async def go(loop):
+        from aioesphomeapi import api_pb2 as pb
+        from aioesphomeapi.connection import APIConnection, ConnectionParams, ConnectionState as S
+        from aioesphomeapi.zeroconf import ZeroconfManager
+        net = simnet.Net(loop)
+        params = ConnectionParams(addresses=["10.0.0.1"], port=6053, password=None, client_info="v", keepalive=20.0,
+                                  zeroconf_manager=ZeroconfManager(), noise_psk=None, expected_name=None)
+        conn = APIConnection(params, lambda e: None, False, None)
+        wrong = []
+        with net.patched():
+            await conn.start_connection()
+            task = asyncio.ensure_future(conn.finish_connection(login=False))
+            await simnet.drain(loop)
+            tr = net.transports[-1]
+            tr.feed(simnet.plain_frame(2, b"\x08\x01\x10\x0a"))
+            await simnet.drain(loop)
+            await task
+            tr.pause_on_write = True
+            if what == "call":
+                op = asyncio.ensure_future(conn.send_messages_await_response_complex((pb.DeviceInfoRequest(),), None, None, (pb.DeviceInfoResponse,), 30.0))
+                answer = pb.DeviceInfoResponse(name="dev")
+            else:
+                op = asyncio.ensure_future(conn.disconnect())
+                answer = pb.DisconnectResponse()
+            await simnet.drain(loop)
+            closed = conn.connection_state is S.CLOSED
+            if closed:
+                if not op.done():
+                    wrong.append("the operation is still blocked on the closed connection")
+                timers = [name for _, name in loop.armed_timers()]
+                if timers:
+                    wrong.append("timers still armed: " + ",".join(timers))
+                if not tr.closing:
+                    wrong.append("transport open")
+            else:
+                tr.feed(simnet.plain_msg(answer))
+                await simnet.drain(loop)
+                if not op.done():
+                    wrong.append("the device answered, the operation is still pending")
+            if not op.done():
+                op.cancel()
+            conn.force_disconnect()
+            await simnet.drain(loop)
+            try:
+                op.exception()
+            except BaseException:  # noqa: BLE001
+                pass
+        return closed, wrong
+    return simnet.run(go)
+
+
 def run(rep, tier, seed):
     connfamily.run(rep, tier, seed, "C08", VFILE, RULE)
     for debug in (False, True):
@@ -355,6 +414,14 @@ def run(rep, tier, seed):
                 if alive or all(o == "pending" for o in outs):
                     rep.violation("C08/not-released", f"two overlapping disconnect() calls (second {gap} turn(s) later), {['neither', 'the first', 'the second'][cancel_which]} cancelled by its caller, "
                                   f"device {'acknowledges' if ack else 'stays silent'}: the calls ended {outs}, yet still alive: {alive or 'both calls pending'}", replay)
+    for what in ("call", "disconnect"):
+        closed, wrong = pause_inside_write_probe(what)
+        replay = {"kind": "pause-inside-write", "what": what}
+        rep.case(("pause-inside-write", what), True, sample={"probe": replay, "closed": closed, "wrong": wrong})
+        rep.bump("probe:pause-inside-write")
+        if wrong:
+            rep.violation("C08/task-blocked" if closed else "C08/not-released", f"pause_writing() called from inside transport.write() while the request of a "
+                          f"{'request/response call' if what == 'call' else 'disconnect()'} is written; connection {'closed' if closed else 'open'} afterwards: {'; '.join(wrong)}", replay)
     for ack_delay in (0, 2.0):
         alive = client_reconnect_during_disconnect_probe(ack_delay)
         replay = {"kind": "client-reconnect-during-disconnect", "ack_delay": ack_delay}
@@ -406,6 +473,12 @@ def replay(path):
         common.setup_impl_path()
         print(handshake_loss_probe(d["noise"], d["stage"], d["exc"]))
         return 0
+    if d.get("kind") == "pause-inside-write":
+        from vlib import common
+        common.setup_impl_path()
+        r = pause_inside_write_probe(d["what"])
+        print(r)
+        return 1 if r[1] else 0
     if d.get("kind") == "client-reconnect-during-disconnect":
         from vlib import common
         common.setup_impl_path()
